@@ -383,7 +383,118 @@ _CLS = ["PUT:412", "PUT:execute", "DELETE:412", "DELETE:execute", "DELETE:404", 
         "HEAD:304", "GET:404"]
 _B = {"quick": {"hlen": 3, "elen": 1, "nitems": 2}, "thorough": {"hlen": 5, "elen": 2, "nitems": 3}}
 
+
+# ------------------------------------------------------------------ the real application, real etag history, header menu
+def _hdr_menu(cur, stale, other):
+    """Header values over the shapes of the quantifier; cur / stale / other are QUOTED etags (cur None = absent)."""
+    c = cur if cur is not None else '"zz"'
+    return [None, "*", c, stale, other, '"zz"', stale + ", " + c, other + ",\t" + c + " ", '"zz", ' + stale,
+            "W/" + c, c.strip('"'), "", c + ", *"]
+
+
+APP_METHODS = ["PUT", "DELETE", "GET", "HEAD"]
+
+
+def body_app_menu(mi, target, imi):
+    """PUT / DELETE / GET / HEAD against the REAL XandikosApp on a calendar whose member a.ics has a real etag
+    HISTORY (the stale etag names an earlier version whose blob is still in the repository) next to b.ics: header
+    values from a menu (absent, '*', current, stale, the other member's, foreign, lists with blanks and tabs, weak,
+    unquoted, empty): the decision equals RFC 7232's, a refusal (412 / 304 / 404) changes nothing, an executed
+    request has the specified effect; GET / HEAD 304 carry no body."""
+    from xv.core import picks, untraced
+    from xv.env import mstore, mweb
+    from xv.oracles import storespec as SP
+    mi, target, imi = picks((mi, target, imi), (4, 3, 13))
+    with untraced():
+        last = (True, "none")
+        for inmi in range(13):
+            last = _app_menu(mi, target, imi, inmi)
+            if not last[0]:
+                return last
+        return last
+
+
+def _app_menu(mi, target, imi, inmi):
+    from xv.env import mstore, mweb
+    from xv.oracles import storespec as SP
+    if True:
+        kind, wsgi, prefix = ctx.PART
+        method = APP_METHODS[mi]
+        S = {"a.ics": b"xb", "b.ics": b"xc"}
+        mweb.fresh_world({"a.ics": b"xa", "b.ics": b"xc"}, {}, kind=kind)
+        app = mweb.make_app()
+        # history: a.ics is rewritten once, so its first etag is stale but still names an object in the repository
+        r0 = mweb.call(app, "PUT", mweb.CAL + "/a.ics", body=b"xb", content_type="text/calendar", prefix=prefix, wsgi=wsgi)
+        if r0.status_class != "2xx":
+            return (False, "setup")
+        q = lambda b: '"' + mstore.expected_etag(kind, b) + '"'
+        name = ["a.ics", "b.ics", "n.ics"][target]
+        cur = q(S[name]) if name in S else None
+        menu = _hdr_menu(cur, q(b"xa"), q(S["b.ics"] if name != "b.ics" else S["a.ics"]))
+        im, inm = menu[imi], menu[inmi]
+        headers = ([("If-Match", im)] if im is not None else []) + ([("If-None-Match", inm)] if inm is not None else [])
+        path = mweb.CAL + "/" + name
+        body = b"xd"
+        r = mweb.call(app, method, path, headers=headers, body=body if method == "PUT" else b"",
+                      content_type="text/calendar", prefix=prefix, wsgi=wsgi)
+        want = O.decide(method, cur, im, inm)
+        S2 = S
+        if want == "execute":
+            if method == "PUT":
+                o, S2 = SP.put(S, name, body)
+                wantst = "2xx" if o == "ok" else "412"
+            else:
+                o, S2 = SP.delete(S, name)
+                wantst = "2xx"
+        elif want == "serve":
+            wantst = "2xx"
+        else:
+            wantst = want
+        cls = method + ":" + want
+        if r.status_class != wantst:
+            return (False, cls)
+        if want == "304" and r.body not in (None, b""):
+            return (False, cls)
+        if want == "serve" and method == "GET" and r.body != S[name]:
+            return (False, cls)
+        import xandikos.web as Wb
+        for restart in (False, True):
+            if restart:
+                Wb.open_store_from_path.cache_clear()
+                app = mweb.make_app()
+            for n in ("a.ics", "b.ics", "n.ics"):
+                g = mweb.call(app, "GET", mweb.CAL + "/" + n, prefix=prefix, wsgi=wsgi)
+                if n in S2:
+                    if g.status_class != "2xx" or g.body != S2[n]:
+                        return (False, cls + ":state")
+                elif g.status_class != "404":
+                    return (False, cls + ":state")
+        return (True, cls)
+
+
+def h_app_menu(mi: int, target: int, imi: int) -> bool:
+    """
+    pre: 0 <= mi < 4 and 0 <= target < 3 and 0 <= imi < 13
+    post: _
+    """
+    return run(body_app_menu, mi, target, imi)
+
 HARNESSES = [
+    Harness("app_menu", h_app_menu, body_app_menu,
+            classes=[("PUT:412", ("tree", False, "/")), ("DELETE:412", ("bare", True, "/dav/")),
+                     ("GET:304", ("bare", True, "/dav/")), ("HEAD:304", ("tree", True, "/")), ("DELETE:404", ("tree", True, "/"))],
+            parts={"quick": [(k, w, p) for k in ("tree", "bare") for w in (False, True) for p in ("/", "/dav/")]},
+            budget={"quick": 120, "thorough": 600},
+            describe="PUT / DELETE / GET / HEAD against the real XandikosApp (real ObjectResource etags, real store, member "
+                     "with an etag history) x target (existing with history, other existing, absent) x 13 If-Match x 13 "
+                     "If-None-Match shapes (absent, '*', current, stale-but-real, other member's, foreign, lists with blanks / "
+                     "tabs, weak, unquoted, empty): decision == RFC 7232, refusals change nothing, 304 has no body; "
+                     "exhaustive over the menu (2028 combinations per part); part = (store kind, WSGI?, prefix)",
+            encodes=["xandikos.webdav.PutMethod.handle", "xandikos.webdav.DeleteMethod.handle", "xandikos.webdav._do_get",
+                     "xandikos.webdav.etag_matches", "xandikos.web.ObjectResource.get_etag", "xandikos.web.extract_strong_etag",
+                     "xandikos.web.ObjectResource.set_body", "xandikos.web.StoreBasedCollection.delete_member",
+                     "xandikos.store.git.GitStore._check_duplicate", "xandikos.store.git.BareGitStore.delete_one",
+                     "xandikos.store.git.TreeGitStore.delete_one", "xandikos.webdav.WSGIRequest.__init__"]),
     Harness("etag_matches", h_etag_matches, body_etag_matches, classes=["absent", "hit", "miss"], bounds=_B,
             budget={"quick": 40, "thorough": 300},
             describe="etag_matches(header, current) == RFC 7232 list membership for every raw header string",
